@@ -28,13 +28,15 @@ def cfg : P (Cfg Float) := do
   let nE ← nat; let bin ← bool; let bt ← nat; let iso ← bool
   let kB ← flt; let a0 ← flt; let theta ← flt; let minDens ← flt; let minComp ← flt; let minRad ← flt; let maxDiss ← flt
   let maxTC ← flt; let x0 ← flts
+  let effOn ← bool; let effOhm ← flts; let effVal ← flts
   let phs ← lst phaseCfg
   pure { dt := { checkPSD := cP, checkNuc := cN, checkTemp := cT, checkRcrit := cR, checkVol := cV, minNucRate := minNuc,
                  maxNucChange := maxNuc, maxNonIsoDT := maxNI, maxRcritChange := maxRc, maxVolChange := maxVol,
                  dtScale := dtScale, binRatio := binRatio },
          sites := { bulkN0 := bulk, dislN0 := disl, gbN0 := gb, edgeN0 := edge, cornerN0 := corner, NA := na, vmAlpha := vmA },
          phases := phs, nElem := nE, binary := bin, betaType := bt, isothermal := iso, kB := kB, a0 := a0, theta := theta,
-         minDens := minDens, minComp := minComp, minRadius := minRad, maxDissolution := maxDiss, maxTempChange := maxTC, x0 := x0 }
+         minDens := minDens, minComp := minComp, minRadius := minRad, maxDissolution := maxDiss, maxTempChange := maxTC, x0 := x0,
+         effEnabled := effOn, effOhm := effOhm, effVal := effVal }
 
 def grid : P (Grid.State Float) := do
   let oMin ← flt; let oMax ← flt; let oBins ← nat; let mn ← flt; let mx ← flt; let bins ← nat
